@@ -74,6 +74,10 @@ def eval_cond(node, sigma, terms, facts=None):
             return facts[s]
     if isinstance(node, ast.Constant):
         return bool(node.value)
+    t0 = terms.of(node) if not isinstance(node, (ast.Compare, ast.BoolOp, ast.UnaryOp, ast.Constant)) else None
+    if t0 is not None and not isinstance(t0, tuple):
+        r = rel_of(sigma, t0, ('const', 0))      # truthiness of a numeric term
+        return None if r is None else (r != EQ)
     if isinstance(node, ast.UnaryOp) and isinstance(node.op, ast.Not):
         v = eval_cond(node.operand, sigma, terms, facts)
         return None if v is None else (not v)
